@@ -14,6 +14,7 @@ structure St where
   s : State1 := {}
   names : Array Ref := #[]
   index : Std.HashMap Ref Nat := {}
+  placed : List Nat := []      -- placement slots taken by client-built nodes
 
 def hexVal (c : Char) : Option Nat :=
   if '0' ≤ c ∧ c ≤ '9' then some (c.toNat - '0'.toNat)
@@ -114,7 +115,8 @@ def treeLine (st : St) (tag : Tag) : String :=
   let names := if named.isEmpty then "-" else ",".intercalate (named.toList.map fun k => s!"n{k}")
   s!"size={t.size} nodes={es.length} named={names}"
 
-def step (st : St) : List String → St × List String
+/-- One line addressed to one Lexicon. -/
+def stepOne (st : St) : List String → St × List String
   -- configuration: the table of reserved words and the names of the built-in types
   | ["cfgword", w] =>
     match parseHex w with
@@ -198,6 +200,16 @@ def step (st : St) : List String → St × List String
     | some k, some _ => st.request (.fresh k)
     | _, _ => bad st
   | ["unit"] => st.request .unit
+  -- a client-built type node at a chosen address: one more node this Lexicon did not unify (where it lies is the
+  -- allocator's business, i.e. a matter of `addr`, which no answer depends on: `C01_L1_refines_L0`)
+  | ["placed", slot, i] =>
+    match slot.toNat?, st.ref? i with
+    | some k, some _ =>
+      if k < 48 ∧ k ∉ st.placed then
+        let (st, out) := st.request (.fresh 7)
+        ({ st with placed := k :: st.placed }, out)
+      else bad st
+    | _, _ => bad st
   -- accessors
   | ["main_variant", t] =>
     match st.ref? t with
@@ -246,5 +258,36 @@ def step (st : St) : List String → St × List String
   | ["tree", tag] => match tagOfString tag with | some tag => (st, [treeLine st tag]) | none => bad st
   | ["stat"] => (st, [s!"# nodes={st.s.heap.size} tables={st.s.tables.length}"])
   | _ => bad st
+
+/-! Several Lexicons in one process (`procStep` of `IprModel/Unify.lean` plus the naming tables): `lexicon k` makes
+    Lexicon `k` current, `new` / `renew` put a newly constructed Lexicon in the current place; every other line is a
+    request or an observation on the current Lexicon and touches nothing else. -/
+structure Multi where
+  cur : Nat := 0
+  slots : Array St := Array.replicate 8 {}
+
+def Multi.here (m : Multi) : St := m.slots[m.cur]?.getD {}
+
+/-- One line addressed to the current Lexicon.  (Its state is taken out of the table while it is stepped, so that it is
+    updated in place: the driver runs histories of 10^5 requests.) -/
+def stepHere : Multi → List String → Multi × List String
+  | ⟨cur, slots⟩, toks =>
+    let st := slots[cur]?.getD {}
+    let slots := slots.setIfInBounds cur {}
+    let (st, out) := stepOne st toks
+    (⟨cur, slots.setIfInBounds cur st⟩, out)
+
+def step (m : Multi) (toks : List String) : Multi × List String :=
+  match toks with
+  | ["lexicon", k] =>
+    match k.toNat? with
+    | some k => if k < m.slots.size then ({ m with cur := k }, ["ok"]) else (m, ["bad-op"])
+    | none => (m, ["bad-op"])
+  | ["new"] | ["renew"] => ({ m with slots := m.slots.setIfInBounds m.cur { cfg := m.here.cfg } }, ["ok"])
+  | "cfgword" :: _ | "cfgbuiltin" :: _ =>
+    -- the tables of reserved words are those of the process
+    let (st, out) := stepOne m.here toks
+    ({ m with slots := m.slots.map fun s => { s with cfg := st.cfg } }, out)
+  | _ => stepHere m toks
 
 end Ipr.Unify.Driver
